@@ -184,6 +184,9 @@ def run(ctx):
             if good:
                 a = H.strip_block(H.call_args(seq[0])[1])
                 good = a.get("k") == "call" and a.get("ctor") == "core::option::Option::Some"
+        if good:
+            okc, why, _ = T.seq_ser_check(fn)
+            good = okc
         ctx.oblige("C02|filtered-seq", good, "FilteredPublicKeyCredentialParameters is no longer emitted as a definite sequence of {alg, type} maps", cfg=cfg)
         conv = F.trait_impl_fn("<webauthn::PublicKeyCredentialParameters as core::convert::From<webauthn::KnownPublicKeyCredentialParameters>>", "from")
         good = False
